@@ -340,6 +340,18 @@ pub fn get_best_move_entry(
         return Some((moves.first().copied(), 0, true));
     }
 
+    // Checkmate or stalemate at the root: there is nothing to search, and nothing to cache either
+    // (an entry for this position would be read as a mate by later searches)
+    if moves.is_empty() {
+        let player = game.player();
+        let score = if game.is_targeted(game.get_king_position(player), player) {
+            Score::MIN + 100
+        } else {
+            0
+        };
+        return Some((None, score, true));
+    }
+
     let mut killer_moves = [None; 256];
     let mut best_move = None;
     let mut best_score = Score::MIN + 1;
